@@ -40,6 +40,11 @@ structure Element where
   id : Nat
   deriving DecidableEq, Repr, Inhabited
 
+/-- `*x509.Certificate`: opaque (which key it certifies is the business of the signature layer) -/
+structure Certificate where
+  id : Nat
+  deriving DecidableEq, Repr, Inhabited
+
 instance {α} : Inhabited (Outcome α) := ⟨.panic "uninitialised function value"⟩
 
 /-- `strconv.Itoa` -/
